@@ -9,7 +9,7 @@ for f in fixed:
     rows.append(f"  | {m.group(1)} | {m.group(2)} | {m.group(3)} |")
 block = "  <!-- FIXED-LIST-BEGIN -->\n" + "\n".join(rows) + f"\n\n  ({len(fixed)} repairs; authoritative list: `known_findings.json`, key `fixed`.)\n  <!-- FIXED-LIST-END -->"
 s = re.sub(r"  <!-- FIXED-LIST-BEGIN -->.*?<!-- FIXED-LIST-END -->", lambda _: block, s, flags=re.S)
-status = subprocess.run([sys.executable, '/verif/tools/status_table.py'], capture_output=True, text=True, env={"PYTHONPATH": "/repo:/verif", "PATH": "/usr/bin:/bin"}).stdout
+status = subprocess.run(['/venv/bin/python', '/verif/tools/status_table.py'], capture_output=True, text=True, env={"PYTHONPATH": "/repo:/verif", "PATH": "/usr/bin:/bin"}).stdout
 if "<!-- STATUS-BEGIN -->" in s:
     s = re.sub(r"<!-- STATUS-BEGIN -->.*?<!-- STATUS-END -->", lambda _: "<!-- STATUS-BEGIN -->\n" + status + "<!-- STATUS-END -->", s, flags=re.S)
 open(p, 'w').write(s)
